@@ -38,8 +38,8 @@ def episode_for(project, rng, all_subs=False):
 
 def run(ctx):
     rng = random.Random(ctx.seed * 7919 + 4)
-    mc = sc.model_check(6 if ctx.quick else 9)
-    projects, r_emit = sc.emit_projects(6 if ctx.quick else 8)
+    mc = sc.model_check(7 if ctx.quick else 11)
+    projects, r_emit = sc.emit_projects(7 if ctx.quick else 10)
     specs = [episode_for(p, rng, all_subs=True) for p in projects]
     n_rand = 250 if ctx.quick else 5000
     for i in range(n_rand):
